@@ -476,6 +476,10 @@ def exec_for(engine, ctx, st: ast.For, env: Env):
     inv = engine.reg.loops.get((qual, loop_ordinal(env, st)))
     if inv is not None:
         return exec_for_invariant(engine, ctx, st, env, it, inv)
+    from . import strmodel as _sm
+
+    if _sm.ENABLED and _sm.is_symbolic_string(it):
+        return _sm.exec_for_string(engine, ctx, st, env, it)
     if st.orelse:
         raise EngineLimit("for/else over a symbolic domain")
     if not mutates_outer_collections(st.body, env):
@@ -518,17 +522,34 @@ def exec_for_invariant(engine, ctx, st: ast.For, env: Env, it, inv):
 
     def inv_clauses(i):
         d = {k: v for k, v in env.vars.items()}
-        d.update(i=i, seq=it, lo=lo, hi=hi, ctx=ctx, carried={k: env.vars[k] for k in modified},
-                 old=getattr(ctx, "entry_ns", None))
+        d.update(i=i, seq=it, lo=lo, hi=hi, ctx=ctx, carried={k: env.vars[k] for k in modified if k in env.vars},
+                 old=getattr(ctx, "entry_old", None))
         ns = NS(**d)
+        trig = getattr(inv, "triggers", None)
+        if trig is not None:
+            # trigger atoms (uninterpreted marker predicates without axioms of their own): assuming them only tells the
+            # solver where to instantiate a definitional axiom of the prelude
+            for t in engine.run_spec(ctx, lambda: list(trig(ns))):
+                if not (z3.is_app(t) and t.decl().name().startswith("unfold!")):
+                    raise EngineLimit("a trigger must be an unfold! marker atom")
+                ctx.assume(t)
         return engine.run_spec(ctx, lambda: _as_items(inv(ns)))
 
     # initiation
     for lab, c in inv_clauses(lo):
         ctx.oblige("%s/inv-init#%s" % (label, lab), lift_bool(c), kind="inv-init")
     # havoc
+    kinds = getattr(inv, "kinds", None) or {}
+    # collections that the body mutates in place (x.add(...)) are loop-carried too: the invariant declares their kind
+    modified = modified + [n for n in kinds if n in env.vars and n not in modified]
     for n in modified:
-        env.vars[n] = fresh_like(engine, ctx, n, env.vars[n])
+        if n in kinds:
+            old_v = env.vars[n]
+            env.vars[n] = ctx.fresh_kind(n, kinds[n])  # kind of a loop-carried variable declared by the invariant
+            if hasattr(env.vars[n], "fresh"):
+                env.vars[n].fresh = getattr(old_v, "fresh", False)  # still the collection this function allocated
+        else:
+            env.vars[n] = fresh_like(engine, ctx, n, env.vars[n])
     # fields of materialised (mutable) objects that the body assigns or updates in place are loop-carried as well
     for (vn, fn) in mutated_fields(st.body):
         o = env.vars.get(vn)
@@ -550,7 +571,7 @@ def exec_for_invariant(engine, ctx, st: ast.For, env: Env, it, inv):
                         o.fields[fn] = ctx.fresh_kind("loop.%s.%s" % (vn, fn), kind)
     # local lists / dicts that the body grows in place: their contents are not tracked across a symbolic loop
     for vn in locally_mutated_containers(st.body):
-        if isinstance(env.vars.get(vn), (PyList, PyDict)):
+        if vn not in kinds and isinstance(env.vars.get(vn), (PyList, PyDict)):
             env.vars[vn] = V.Opaque("container built in a loop over a symbolic domain")
     i = ctx.fresh("iter", z3.IntSort())
     ctx.assume(i >= lo)
@@ -661,9 +682,23 @@ def build_comprehension(engine, ctx, e, gen, it, env, kind):
             if all(isinstance(x, int) or (isinstance(x, z3.ExprRef) and z3.is_int(x)) for x in out):
                 return engine.to_symset(ctx, out)
             return V.ValueSet(out)
-    if kind == "dict":
-        raise EngineLimit("dict comprehension over a symbolic domain")
     b = bind_domain(engine, ctx, it)
+    if kind == "dict":
+        # the dictionary itself is not modelled (any later use is an engine limit); its key / value / filter
+        # expressions are evaluated for an arbitrary element so that an exception they could raise is not lost
+        def dbody():
+            cenv = Env(env.module, env, env.finfo)
+            engine.assign(ctx, gen.target, b.value, cenv)
+            for cond in gen.ifs:
+                engine.truth(ctx, engine.eval(ctx, cond, cenv))
+            engine.eval(ctx, e.key, cenv)
+            engine.eval(ctx, e.value, cenv)
+
+        try:
+            run_under_binding(engine, ctx, b, dbody)
+        except PyRaise:
+            raise EngineLimit("dict comprehension over a symbolic domain whose element expressions may raise")
+        return V.Opaque("dict built by a comprehension over a symbolic domain")
     if kind == "set":
         result = SymSet(z3.K(z3.IntSort(), z3.BoolVal(False)), fresh=True)
 
@@ -864,6 +899,10 @@ def minmax_iter(engine, ctx, it, is_min: bool):
         if ctx.decide(z3.Not(lift_bool(engine.truth(ctx, it)))):
             raise engine.lib.raise_ext("ValueError")
         return st.smin(it.term) if is_min else st.smax(it.term)
+    if isinstance(it, SymSeq) and it.kind is V.Int:
+        if ctx.decide(it.length <= 0):
+            raise engine.lib.raise_ext("ValueError")
+        return st.minseq(it.arr, it.length) if is_min else st.maxseq(it.arr, it.length)
     items = mapped_items_concrete(engine, ctx, it)
     if items is not None:
         return engine.lib.fold_minmax(ctx, items, is_min)
@@ -900,6 +939,11 @@ def image_of_mapped(engine, ctx, m: V.MappedIter):
             if gen.ifs:
                 raise EngineLimit("filtered generator into set()")
             v = engine.eval(ctx, m.node.elt, cenv)
+        if isinstance(v, str) or (isinstance(v, z3.ExprRef) and z3.is_string(v)):
+            # a set of strings (e.g. the root namespace names of a list of definitions)
+            result.term = z3.K(z3.StringSort(), z3.BoolVal(False))
+            result.elem_sort = z3.StringSort()
+            v = V.Str.unwrap(v)
         ctx.collector.add(ctx, result, v)
 
     run_under_binding(engine, ctx, b, body)
@@ -923,7 +967,27 @@ def filter_iter(engine, ctx, fn, it):
             if ctx.decide(lift_bool_truth(engine, ctx, engine.call(ctx, fn, [x], {}))):
                 out.append(x)
         return PyList(out)
+    if isinstance(it, SymSeq):
+        return filter_symbolic(engine, ctx, fn, it)
     raise EngineLimit("filter over a symbolic domain")
+
+
+def filter_symbolic(engine, ctx, fn, src: SymSeq):
+    """filter(pred, seq) over a symbolic sequence: the predicate is evaluated once for an arbitrary element (it must be
+       a branch-free boolean expression of the element: `and`/`or` are evaluated without short-circuit forks, which is
+       only accepted when no operand branches or raises); the result is the canonical order-preserving subsequence."""
+    b = bind_domain(engine, ctx, src)
+    holder = {}
+
+    def body():
+        ctx.pure_bool = getattr(ctx, "pure_bool", 0) + 1
+        try:
+            holder["cond"] = lift_bool(lift_bool_truth(engine, ctx, engine.call(ctx, fn, [b.value], {})))
+        finally:
+            ctx.pure_bool -= 1
+
+    run_under_binding(engine, ctx, b, body)
+    return canonical_filter(ctx, src, holder["cond"], b.consts[0])
 
 
 # ----------------------------------------------------------------------------------------------------------------
@@ -1123,7 +1187,7 @@ def filtered_comprehension(engine, ctx, e, gen, src: SymSeq, b: Binding, env):
     return seq_from_template(engine, ctx, sub, b2, holder2["v"])
 
 
-def canonical_filter(ctx, src: SymSeq, cond, i0):
+def canonical_filter(ctx, src: SymSeq, cond, i0, strict=False):
     """The order-preserving subsequence of `src` of the elements that satisfy a predicate of the element.
        Canonical: flt!<hash>!arr(src.arr, n), a function of the source (equal filters give equal terms)."""
     import hashlib
@@ -1159,6 +1223,11 @@ def canonical_filter(ctx, src: SymSeq, cond, i0):
                                                sel(farr(S, n), finv(S, n, i)) == sel(S, i))),
                   patterns=[z3.MultiPattern(sel(S, i), farr(S, n)), z3.MultiPattern(sel(S, i), flen(S, n))]),
     ]
+    if strict:
+        # a filter that rejects some element is strictly shorter than its source
+        # (Lean: Pydsdl.filter_length_lt, lean/Pydsdl/Filter.lean = List.length_filter_lt_length_iff_exists)
+        facts.append(z3.ForAll([S, n, i], z3.Implies(z3.And(0 <= i, i < n, z3.Not(P(sel(S, i)))), flen(S, n) < n),
+                               patterns=[z3.MultiPattern(sel(S, i), flen(S, n))]))
     for f in facts:
         ctx.add_axiom(f)
     sub = SymSeq(farr(src.arr, src.length), flen(src.arr, src.length), src.kind, fresh=True)
